@@ -26,3 +26,52 @@ pub mod tokio {
         ensures spawned(f)
     { unimplemented!() }
 }
+
+// ---- the `http` crate's types named by `Pooled`'s `Connection` impl.  `Version` as in prelude/http_types.rs (the five
+//      public constants over an opaque number); `Request<B>` is an opaque value: this unit only moves it. ----
+#[derive(Clone, Copy, PartialEq, Eq, Structural)]
+pub struct Version(pub u8);
+impl Version {
+    pub const HTTP_09: Version = Version(0);
+    pub const HTTP_10: Version = Version(1);
+    pub const HTTP_11: Version = Version(2);
+    pub const HTTP_2: Version = Version(3);
+    pub const HTTP_3: Version = Version(4);
+}
+#[verifier::external_body]
+#[verifier::reject_recursive_types(B)]
+pub struct Request<B> { _p: PhantomData<B> }
+pub mod http {
+    pub use super::{Version, Request};
+}
+
+/// ghost: what the future `f` returned by a connection's `send_request` stands for: (id of the transport stream the request
+/// goes over, the request itself, how many requests that connection had been given before this one)
+pub uninterp spec fn exchange_of<B, F>(f: F) -> (int, http::Request<B>, int);
+
+/// The three items of `crate::client::conn::Connection<B>` that prelude/pool.rs leaves out (`type Future`, `version`,
+/// `send_request`; `ResBody` is not named by any extracted fn), as a second trait so that the trait text shared with unit
+/// `pool` stays as it is.  The extracted `impl Connection<B> for Pooled<C, B>` methods get `C: PoolableConnection<B> +
+/// ConnectionWire<B>` as their bound (`impl_header=`): in /repo the two are one trait.
+/// ASSUMED for every implementor C: `version` is a pure read of a ghost attribute; `send_request` appends exactly the given
+/// request to the connection's ghost log, keeps the connection's identity / shareability / version, and the future it
+/// returns is the exchange of that very request on that very connection.
+pub trait ConnectionWire<B>: Connection<B> {
+    type Future;
+
+    /// ghost: the HTTP version this connection speaks
+    spec fn version_s(&self) -> http::Version;
+    /// ghost: the requests handed to this connection so far, in order
+    spec fn sent_log(&self) -> Seq<http::Request<B>>;
+
+    fn version(&self) -> (r: http::Version)
+        ensures r == self.version_s();
+
+    fn send_request(&mut self, request: http::Request<B>) -> (r: Self::Future)
+        ensures
+            final(self).sent_log() == old(self).sent_log().push(request),
+            exchange_of::<B, Self::Future>(r) == (old(self).id(), request, old(self).sent_log().len() as int),
+            final(self).id() == old(self).id(),
+            final(self).shareable() == old(self).shareable(),
+            final(self).version_s() == old(self).version_s();
+}
